@@ -14,20 +14,25 @@ SHARD = 120
 MB = 1 << 20
 RULE = ("one case = one end-to-end trip (input + output file handler, record -> save on one of the three cassettes -> "
         "fetch -> replay at different paths, the replayed path possibly holding a file already), one sequence (several "
-        "recordings replayed one after another / twice into the same path) or one unit evaluation (_serialize/_deserialize_file, "
+        "recordings replayed one after another / twice into the same path; recordings made one after another of ONE "
+        "recorded path whose file is rewritten in between), one history (one operation handing one path to the input "
+        "and output file handlers 2-5 times, the file rewritten between interceptions with other bytes of the same / "
+        "another length, modification time left to the clock / set to a fixed stamp / put back, in place or through "
+        "os.replace) or one unit evaluation (_serialize/_deserialize_file, "
         "_is_file_above_size_limit on a file of a given size, _get_file_path); non-trivial = a trip, or a limit "
         "evaluation within one byte of the limit, or a non-empty base64 content, or a path lookup with keywords; "
         "distinct = distinct case descriptions")
 ASSUMPTIONS = ["file sizes below 2^53 bytes and a finite limit, so that Python's float comparison size/2^20 > limit is the "
                "exact rational comparison of the model (exercised up to 2^53-1 through a substituted os.path.getsize)",
                "the file does not change between os.path.getsize and read (the theorems do not need it: what was read is "
-               "what is restored)",
+               "what is restored); it may change freely BETWEEN two interceptions, whatever its size and timestamps",
                "jsonpickle's coding of bytes inside the stored JSON is invertible (oracle qp/qp_dec of model A; exercised "
                "end to end on every run through the three real cassettes)",
                "the replayed path can be opened for writing"]
 TRUSTED = ["journalling wrapper around builtins.open / io.open (reads through other OS interfaces are not seen)",
            "fake bucket behind the real S3BasicFacade; scratch files under /tmp/files-scratch-<pid>"]
-THEOREMS = ["C20_file_roundtrip", "C20_limit_honoured", "C20_b64_roundtrip", "C20_b64_alphabet"]
+THEOREMS = ["C20_file_roundtrip", "C20_limit_honoured", "C20_b64_roundtrip", "C20_b64_alphabet", "C20_history_input",
+            "C20_history_output"]
 
 # ---------------------------------------------------------------------------------------------- limits
 
@@ -181,6 +186,37 @@ def trip_case(rng, dims, content, lim, out_content=None, tag="", cassette=None):
     return c
 
 
+def same_size_family(rng, n, k):
+    """k pairwise different contents of the same length n >= 1: the first is random, the others differ from it in a
+    single byte or in all of them"""
+    base = bytearray(expand({"sha": rng.randrange(1 << 30), "n": n}))
+    out = [bytes(base)]
+    while len(out) < k:
+        j = len(out)
+        if n > 1 and rng.random() < 0.4:
+            v = bytearray(expand({"sha": rng.randrange(1 << 30), "n": n}))
+        else:
+            v = bytearray(base)
+            pos = rng.randrange(n)
+            v[pos] = (v[pos] + j) % 256
+        if bytes(v) not in out:
+            out.append(bytes(v))
+    return [hexspec(b) for b in out]
+
+
+def hist_step(via, content, fresh, stamp):
+    return {"via": via, "content": content, "fresh": fresh, "stamp": stamp}
+
+
+def hist_case(rng, dims, steps, lim=None, how="inplace", pre=None, tag="", cassette=None):
+    cas, in_static, out_static, in_rec, in_play, out_rec, out_play = dims
+    return {"kind": "hist", "cassette": cassette or cas, "limit": lim or LIM_DEFAULT,
+            "name": rng.choice(["path", "path", "file_path", "p"]), "dir": rng.choice(["plain", "plain", "unicode"]),
+            "in": make_side(rng, "in", in_static, rng.choice([0, 0, 1]), in_rec, in_play, rng.random() < 0.2),
+            "out": make_side(rng, "out", out_static, rng.choice([0, 0, 1]), out_rec, out_play, rng.random() < 0.2),
+            "steps": steps, "how": how, "pre": pre, "tag": tag}
+
+
 def generate(rng, tier):
     quick = tier != "thorough"
     _pre_counter[0] = 0
@@ -287,6 +323,53 @@ def generate(rng, tier):
         one_off = [rnd(n) for n in (50, 49, 51, 50)]
         cases.append(seq_case(one_off, [0, 1, 2, 3, 1], lim_env("1"), None, "one-byte-steps"))
 
+    # 11. histories on ONE recorded path: the file is rewritten between two interceptions - other bytes of the same
+    #     length (or of another length), the writer leaving the clock's modification time, setting it to a fixed
+    #     stamp or putting the previous one back, in place or through a temporary file - (a) across recordings made
+    #     one after another with one recorder, (b) inside one operation that hands the path to intercepted inputs
+    #     and outputs several times.  What is recorded at an interception is what the file holds at that moment.
+    STAMP = 1500000000
+    for rep in range(2 if quick else 12):
+        for stamp_kind in ("same", "keep"):
+            n = rng.choice([1, 24, 57, 300]) if rep else 64
+            fam = same_size_family(rng, n, 4)
+            stamps = [STAMP] * 4 if stamp_kind == "same" else [None, "keep", "keep", "keep"]
+            c = seq_case(fam, [0, 1, 2, 3, 1], LIM_DEFAULT, None, "same-size-rewrite:" + stamp_kind)
+            c["stamps"], c["how"] = stamps, ("inplace" if rep % 2 == 0 else "replace")
+            cases.append(c)
+        grow = [rnd(40), rnd(40), rnd(41), rnd(40), rnd(39)]
+        c = seq_case(grow, [0, 1, 2, 3, 4], LIM_DEFAULT, None, "rewrite-mixed-sizes")
+        c["stamps"], c["how"] = [rng.choice([STAMP, None, "keep"]) for _ in grow], rng.choice(["inplace", "replace"])
+        cases.append(c)
+    probes = [("in", "in"), ("out", "out"), ("in", "out"), ("out", "in")]
+    for cas in cassettes:
+        for pi_, vias in enumerate(probes):            # the small region, deterministically: every pair of handlers
+            for stamp_kind in (("same", "keep") if not quick else (("same", "keep")[(pi_ + cassettes.index(cas)) % 2],)):
+                fam = same_size_family(rng, rng.choice([1, 16, 64, 200]), 2)
+                steps = [hist_step(v, fam[i], True, STAMP if stamp_kind == "same" else ("keep" if i else None))
+                         for i, v in enumerate(vias)]
+                cases.append(hist_case(rng, next(dims), steps, tag="pair:%s-%s:%s" % (vias[0], vias[1], stamp_kind),
+                                       cassette=cas))
+    for rep in range(18 if quick else 200):
+        k = rng.randrange(2, 6)
+        n = rng.choice([1, 2, 24, 100, 333])
+        same = rng.random() < 0.7
+        fam = same_size_family(rng, n, k) if same else [rnd(max(0, n + rng.choice([-1, 0, 0, 1, 5]))) for _ in range(k)]
+        pattern = rng.choice(["same", "same", "keep", "natural", "mixed"])
+        steps = []
+        for i in range(k):
+            fresh = i == 0 or rng.random() < 0.75
+            stamp = {"same": STAMP, "keep": "keep" if i else None, "natural": None,
+                     "mixed": rng.choice([STAMP, STAMP + 1, None, "keep"])}[pattern]
+            content = fam[i] if fresh else steps[-1]["content"]
+            steps.append(hist_step(rng.choice(["in", "out"]), content, fresh, stamp if fresh else None))
+        lim = LIM_DEFAULT
+        if rng.random() < 0.25:      # a limit the history crosses: some versions are above it
+            lim = lim_explicit_bytes(max(0, n + rng.choice([-1, 0, 0, 1])))
+        cases.append(hist_case(rng, next(dims), steps, lim=lim, how=rng.choice(["inplace", "replace"]),
+                               pre=rng.choice([None, None, rnd(rng.randrange(0, 700))]),
+                               tag="random:%s:%s" % ("same-size" if same else "sizes-vary", pattern)))
+
     # ---- unit level ----
     n_rand = 40 if quick else 400
     for tag, spec in cat:
@@ -331,9 +414,10 @@ def generate(rng, tier):
             kwargs["other"] = rng.choice(vals)
         cases.append({"kind": "path", "index": rng.randrange(-5, 5), "name": name, "args": args, "kwargs": kwargs, "tag": ""})
     # heavy trips first, then dealt round-robin so that every Coq shard gets its share of the long byte strings
-    heavy = lambda c: sum(size_of(x) for x in c["contents"]) if c["kind"] == "seq" else size_of(c["content"])
-    trips = sorted([c for c in cases if c["kind"] in ("trip", "seq")], key=lambda c: -heavy(c))
-    rest = [c for c in cases if c["kind"] not in ("trip", "seq")]
+    heavy = lambda c: sum(size_of(x) for x in c["contents"]) if c["kind"] == "seq" else \
+        sum(size_of(st["content"]) for st in c["steps"]) if c["kind"] == "hist" else size_of(c["content"])
+    trips = sorted([c for c in cases if c["kind"] in ("trip", "seq", "hist")], key=lambda c: -heavy(c))
+    rest = [c for c in cases if c["kind"] not in ("trip", "seq", "hist")]
     k = max(1, (len(cases) + SHARD - 1) // SHARD)
     per = (len(cases) + k - 1) // k
     buckets = [[] for _ in range(k)]
@@ -497,6 +581,8 @@ def to_gallina(case, obs):
                                          g_kwargs(case["kwargs"]), impl)
     if k == "seq":
         return seq_gallina(case, obs)
+    if k == "hist":
+        return hist_gallina(case, obs)
     pool = Pool()
     lim = case["limit"]
     pre = []
@@ -543,6 +629,36 @@ def seq_gallina(case, obs):
     term = "CSeq (Seq %s %s %s %s %s %s %s %s %s %s)" % (
         g_explicit(lim), g_env(lim), gstr(case["name"]), gZ(case["in"]["index"]), glist(files), rec, play,
         glist(pre), glist(["%d%%nat" % i for i in case["order"]]), impl)
+    return pool.wrap(term)
+
+
+def hist_gallina(case, obs):
+    pool = Pool()
+    lim = case["limit"]
+
+    def call(which, phase, role):
+        side = case[which]
+        args, kwargs = filespec.call_args(side["extras"], side[phase], role, case["name"])
+        if not side["static"]:
+            args = [{"o": "list1"}] + args
+        return "(%s, %s)" % (glist([g_arg(a) for a in args]), g_kwargs(kwargs))
+    steps = []
+    for st in case["steps"]:
+        steps.append("(%s, %s, (%s, %s))" % ("HIn" if st["via"] == "in" else "HOut", gbool(st["fresh"]),
+                                             gZ(size_of(st["content"])), pool.lit(expand(st["content"]))))
+    pre = [] if case.get("pre") is None else ["(%s, %s)" % (gstr("PI"), pool.lit(expand(case["pre"])))]
+    if obs.get("status") != "ok":
+        impl = "[None; None; None; None; None; None; None; None; None; None; None]"       # mismatch
+    else:
+        out = []
+        for st, o in zip(case["steps"], obs["steps"]):
+            b = unhex(o.get("restored") if st["via"] == "in" else o.get("holder_rec"))
+            out.append(gopt(None if b is None else pool.lit(b)))
+        impl = glist(out)
+    term = "CHist (Hist %s %s %s %s %s %s %s %s %s %s %s %s)" % (
+        g_explicit(lim), g_env(lim), gstr(case["name"]), gZ(case["in"]["index"]), gZ(case["out"]["index"]),
+        gbool(case["out"]["static"]), glist(steps), call("in", "rec", "RI"), call("in", "play", "PI"),
+        call("out", "rec", "RI"), glist(pre), impl)
     return pool.wrap(term)
 
 
@@ -593,10 +709,57 @@ def direct(case, obs):
                 prev = "nothing" if step == 0 and case.get("pre") is None else "%d bytes" % (
                     size_of(case["pre"]) if step == 0 else len(bytes.fromhex(obs["steps"][step - 1]["hex"]))
                     if obs["steps"][step - 1] and "hex" in obs["steps"][step - 1] else -1)
-                fails.append(("input-bytes-differ-on-existing-file",
-                              "replay #%d of a %d byte recording into a path holding %s left %s" %
-                              (step, size_of(spec), prev, str(shown)[:100])))
+                other = [j for j, sp in enumerate(case["contents"]) if j != i and expand(sp) != expand(spec)
+                         and same_bytes(shown, expand(sp))]
+                if other and case.get("stamps"):
+                    fails.append(("input-bytes-differ-rewritten",
+                                  "replay #%d: recording %d was made of %d bytes found at the recorded path, rewritten since "
+                                  "recording %d was made there (mtime %s, %s); the replay restored the bytes of recording %d" %
+                                  (step, i, size_of(spec), other[0], case["stamps"][i], case.get("how"), other[0])))
+                else:
+                    fails.append(("input-bytes-differ-on-existing-file",
+                                  "replay #%d of a %d byte recording into a path holding %s left %s" %
+                                  (step, size_of(spec), prev, str(shown)[:100])))
                 break
+        return fails
+    if k == "hist":
+        if obs.get("status") != "ok":
+            return [("hist-" + str(obs.get("status")), "recording / replaying the history did not complete: %s" %
+                     obs.get("replay_raises", ""))]
+        lim = case["limit"]
+        steps = case["steps"]
+        if obs.get("bodies_play"):
+            fails.append(("input-body-ran-in-replay", "the intercepted input function was executed during replay"))
+        any_above = any(is_above_documented(size_of(st["content"]), lim) for st in steps)
+
+        def describe(shown, i):
+            for j in range(i - 1, -1, -1):
+                if same_bytes(shown, expand(steps[j]["content"])):
+                    return "the bytes the file held at interception #%d" % j
+            return str(shown)[:100]
+        for i, (st, o) in enumerate(zip(steps, obs["steps"])):
+            content = expand(st["content"])
+            which = "input" if st["via"] == "in" else "output"
+            if is_above_documented(len(content), lim):
+                if o["reads_rec"]:
+                    fails.append((which + "-above-limit-read", "interception #%d: file of %d bytes (limit %s MB) was opened "
+                                  "for reading" % (i, len(content), documented_limit(lim))))
+                continue
+            rewritten = any(s2["fresh"] for s2 in steps[1:i + 1])
+            suffix = "-rewritten" if rewritten else ""         # signatures stay below 40 characters (replay file names)
+            how = "interception #%d of the path (%s handler; %d bytes; rewritten before: %s, mtime %s, %s)" % (
+                i, which, len(content), st["fresh"] and i > 0, st.get("stamp"), case.get("how"))
+            if st["via"] == "in":
+                if not same_bytes(o.get("restored"), content):
+                    fails.append(("input-bytes-differ" + suffix, "%s: the file restored at the replayed path holds %s" %
+                                  (how, describe(o.get("restored"), i))))
+            else:
+                if not same_bytes(o.get("holder_rec"), content):
+                    fails.append(("output-bytes-differ" + suffix + ":rec", "%s: the holder of the recorded output "
+                                  "holds %s" % (how, describe(o.get("holder_rec"), i))))
+                if not any_above and not same_bytes(o.get("holder_play"), content):
+                    fails.append(("output-bytes-differ" + suffix + ":play", "%s: the holder of the replayed output "
+                                  "holds %s" % (how, describe(o.get("holder_play"), i))))
         return fails
     if case.get("expect") in ("discard", "unwritable"):
         return fails
@@ -682,6 +845,31 @@ def features(case):
             f.add("seq:shrinking-step")
         if any(a == b for a, b in zip(case["order"], case["order"][1:])):
             f.add("seq:same-recording-twice")
+        if case.get("stamps"):
+            f.add("seq:recorded-path-rewritten:" + case.get("how", "inplace"))
+            cs = case["contents"]
+            for a, b, sb in zip(cs, cs[1:], case["stamps"][1:]):
+                if size_of(a) == size_of(b) and expand(a) != expand(b) and sb is not None:
+                    f.add("seq:rewritten-same-size-same-mtime")
+    elif k == "hist":
+        f.add("cassette:" + case["cassette"])
+        f.add("hist:" + case["tag"].split(":")[0])
+        f.add("hist-steps:%d" % len(case["steps"]))
+        f.add("hist-write:" + case.get("how", "inplace"))
+        f.add("in:" + ("static" if case["in"]["static"] else "instance"))
+        f.add("out:" + ("static" if case["out"]["static"] else "instance"))
+        f.add("in:%s->%s" % (case["in"]["rec"], case["in"]["play"]))
+        st = case["steps"]
+        for a, b in zip(st, st[1:]):
+            f.add("hist-pair:%s-%s" % (a["via"], b["via"]))
+            if b["fresh"] and size_of(a["content"]) == size_of(b["content"]) and a["content"] != b["content"]:
+                f.add("hist:rewritten-same-size:mtime-%s" % ("clock" if b["stamp"] is None else "kept" if b["stamp"] == "keep"
+                                                            else "stamped"))
+            if not b["fresh"]:
+                f.add("hist:same-file-handed-on")
+        if any(is_above_documented(size_of(x["content"]), case["limit"]) for x in st):
+            f.add("hist:some-version-above-limit")
+        f.add("hist-before:" + ("file" if case.get("pre") is not None else "nothing"))
     elif k == "above":
         f.add("above:" + case["tag"])
         f.add("limit:" + ("env" if case["limit"].get("env") is not None else "default" if case["limit"]["explicit"] is None
@@ -695,7 +883,7 @@ def features(case):
 
 def nontrivial(case):
     k = case["kind"]
-    if k in ("trip", "seq"):
+    if k in ("trip", "seq", "hist"):
         return True
     if k == "above":
         return case["tag"] in ("edge-1", "edge+0", "edge+1", "huge")
@@ -714,6 +902,27 @@ def shrink_candidates(case):
         if case["in"]["extras"] or case["in"]["rec"] != "pos" or case["in"]["play"] != "pos" or not case["in"]["static"]:
             yield dict(case, **{"in": {"static": True, "extras": [], "rec": "pos", "play": "pos", "index": 0}})
         return
+    if case["kind"] == "hist":
+        if case["cassette"] != "mem":
+            yield dict(case, cassette="mem")
+        st = case["steps"]
+        for j in range(len(st)):
+            if len(st) > 1:
+                rest = [dict(x) for x in st[:j] + st[j + 1:]]
+                rest[0]["fresh"] = True
+                if rest[0].get("stamp") == "keep":
+                    rest[0]["stamp"] = None
+                if all(r["fresh"] or r["content"] == p["content"] for p, r in zip(rest, rest[1:])):
+                    yield dict(case, steps=rest)
+        for which in ("in", "out"):
+            side = case[which]
+            if side["extras"] or side["rec"] != "pos" or side["play"] != "pos" or not side["static"]:
+                yield dict(case, **{which: {"static": True, "extras": [], "rec": "pos", "play": "pos", "index": 0}})
+        if case.get("pre") is not None:
+            yield dict(case, pre=None)
+        if case.get("dir") != "plain":
+            yield dict(case, dir="plain")
+        return
     if case["kind"] != "trip":
         return
     if case["cassette"] != "mem":
@@ -731,14 +940,14 @@ def shrink_candidates(case):
 
 
 def search_harder(rng, bad_cases):
-    extra = [c for c in generate(rng, "thorough") if c["kind"] in ("trip", "seq")]
+    extra = [c for c in generate(rng, "thorough") if c["kind"] in ("trip", "seq", "hist")]
     rng.shuffle(extra)
     return extra[:400]
 
 
 MANIFEST = dict(
     design_ref='6/C20',
-    text='Coq theorems for every byte string, path, way of passing the path (keyword / position), file-system and quoted-printable oracle: record -> cassette -> replay writes exactly the recorded bytes at the path of the REPLAYED call (input handler) / yields a holder with exactly those bytes (output handler), also when the content is the placeholder text; above the limit the placeholder is recorded and the file is never opened; the size test is the exact rational comparison size > limit*2^20 with the three boundary corollaries and int(float(env)) for the environment variable; a concrete RFC 4648 base64 codec with b64dec(b64enc b) = b, alphabet and length laws. Model tied to /repo on every run: the real handlers are driven end to end through the real TapeRecorder and the three real cassettes (in-memory, file, S3 over a fake bucket) on contents {empty, all 256 byte values, newlines, placeholder and near-placeholder texts, random binary, multi-MB} x sizes limit-1/limit/limit+1 x explicit float / int / environment limits x keyword / position x static / instance, and at unit level (base64 text, size check, path lookup); Coq compares with the model by vm_compute; the direct predicate (restored bytes == original at the replayed path, holder content == original, above-limit files never opened and recorded as the placeholder) searches for a failing input.',
+    text='Coq theorems for every byte string, path, way of passing the path (keyword / position), file-system and quoted-printable oracle: record -> cassette -> replay writes exactly the recorded bytes at the path of the REPLAYED call (input handler) / yields a holder with exactly those bytes (output handler), also when the content is the placeholder text; above the limit the placeholder is recorded and the file is never opened; the size test is the exact rational comparison size > limit*2^20 with the three boundary corollaries and int(float(env)) for the environment variable; a concrete RFC 4648 base64 codec with b64dec(b64enc b) = b, alphabet and length laws. Model tied to /repo on every run: the real handlers are driven end to end through the real TapeRecorder and the three real cassettes (in-memory, file, S3 over a fake bucket) on contents {empty, all 256 byte values, newlines, placeholder and near-placeholder texts, random binary, multi-MB} x sizes limit-1/limit/limit+1 x explicit float / int / environment limits x keyword / position x static / instance, and at unit level (base64 text, size check, path lookup); Coq compares with the model by vm_compute; the direct predicate (restored bytes == original at the replayed path, holder content == original, above-limit files never opened and recorded as the placeholder) searches for a failing input. Histories on one path (theorems C20_history_input/_output: the k-th recording of a path is made of what the file holds at the k-th interception): the same recorded path intercepted repeatedly - across recordings and 2-5 times inside one operation, by input and output handlers in every order - with the file rewritten in between (same length, modification time stamped / kept / clock, in place / replaced).',
     note='Trusted: Coq kernel + vm_compute; hand-written model; correspondence harness (fake bucket behind the real S3BasicFacade, journalling wrapper around open, substituted os.path.getsize for sizes that cannot be materialised); jsonpickle\'s coding of bytes is an oracle (model A) exercised end to end; float comparison exact for sizes < 2^53.',
     technique='Coq proof (lia + finite sweep over the 64 base64 digits, exact rationals for the limit) + model/implementation correspondence by vm_compute + direct predicate end to end',
 )
